@@ -606,3 +606,74 @@ impl<T: Sem + CanonicalSerialize + CanonicalDeserialize> Sem for ViaSlice<T> {
         Vec::<T>::deserialize_with_mode(r, c, v).map(ViaSlice)
     }
 }
+
+// ---- the serialize_to_vec! macro ------------------------------------------------------
+// Its documentation says "compressed", its implementation writes every argument
+// uncompressed; the harness only demands that ALL arguments are written in ONE mode (so
+// that the result reads back as the tuple in that mode), and finds out which by a probe.
+
+fn macro_mode() -> Compress {
+    // a value whose size depends on the mode
+    let probe = CompressedChecked(0u8);
+    let _ = probe;
+    let p = <ark_test_curves::bls12_381::G1Affine as ark_ec::AffineRepr>::generator();
+    match ark_serialize::serialize_to_vec![p] {
+        Ok(b) if b.len() == p.compressed_size() => Compress::Yes,
+        _ => Compress::No,
+    }
+}
+
+#[derive(Debug)]
+pub struct ViaMacro2<A, B>(pub A, pub B);
+impl<A, B> Sem for ViaMacro2<A, B>
+where
+    A: Sem + CanonicalSerialize + CanonicalDeserialize,
+    B: Sem + CanonicalSerialize + CanonicalDeserialize,
+{
+    fn gen(g: &mut G<'_>) -> Self {
+        ViaMacro2(A::gen(g), B::gen(g))
+    }
+    fn same(&self, o: &Self) -> bool {
+        self.0.same(&o.0) && self.1.same(&o.1)
+    }
+    fn ref_valid(&self, v: bool) -> bool {
+        self.0.ref_valid(v) && self.1.ref_valid(v)
+    }
+    fn ser<W: Write>(&self, mut w: W, _c: Compress) -> Result<(), SerializationError> {
+        let bytes = ark_serialize::serialize_to_vec![self.0, self.1]?;
+        w.write_all(&bytes)?;
+        Ok(())
+    }
+    fn size(&self, _c: Compress) -> usize {
+        let m = macro_mode();
+        self.0.serialized_size(m) + self.1.serialized_size(m)
+    }
+    fn deser<R: Read>(r: R, _c: Compress, v: Validate) -> Result<Self, SerializationError> {
+        <(A, B)>::deserialize_with_mode(r, macro_mode(), v).map(|t| ViaMacro2(t.0, t.1))
+    }
+}
+
+#[derive(Debug)]
+pub struct ViaMacro1<A>(pub A);
+impl<A: Sem + CanonicalSerialize + CanonicalDeserialize> Sem for ViaMacro1<A> {
+    fn gen(g: &mut G<'_>) -> Self {
+        ViaMacro1(A::gen(g))
+    }
+    fn same(&self, o: &Self) -> bool {
+        self.0.same(&o.0)
+    }
+    fn ref_valid(&self, v: bool) -> bool {
+        self.0.ref_valid(v)
+    }
+    fn ser<W: Write>(&self, mut w: W, _c: Compress) -> Result<(), SerializationError> {
+        let bytes = ark_serialize::serialize_to_vec![self.0]?;
+        w.write_all(&bytes)?;
+        Ok(())
+    }
+    fn size(&self, _c: Compress) -> usize {
+        self.0.serialized_size(macro_mode())
+    }
+    fn deser<R: Read>(r: R, _c: Compress, v: Validate) -> Result<Self, SerializationError> {
+        A::deserialize_with_mode(r, macro_mode(), v).map(ViaMacro1)
+    }
+}
